@@ -697,7 +697,18 @@ func (in *Interp) eval(fr *frame, v ssa.Value) Value {
 		return &MapObj{kt: mt.Key(), vt: mt.Elem(), id: in.mapIDs}
 	case *ssa.MakeSlice:
 		n := in.concreteInt(in.get(fr, x.Len), "make len")
-		c := in.concreteInt(in.get(fr, x.Cap), "make cap")
+		capT := in.get(fr, x.Cap).(*Term)
+		if !capT.IsConst() {
+			// symbolic capacity: only the allocation size depends on it.  Obligation: it is a legal size;
+			// then model the slice with cap == len (append reallocates; contents semantics are unchanged).
+			w := int(capT.sort.W)
+			bad := in.tt.Or(in.tt.Slt(capT, in.tt.BV(w, uint64(n))), in.tt.Slt(in.tt.BV(w, 1<<40), capT))
+			if in.branch(bad, "makecap") {
+				in.goPanic("makeslice: cap out of range (symbolic)")
+			}
+			capT = in.tt.BV(w, uint64(n))
+		}
+		c := in.concreteInt(capT, "make cap")
 		if n < 0 || c < n || c > 1<<24 {
 			in.goPanic("makeslice: len/cap out of range (%d,%d)", n, c)
 		}
